@@ -679,13 +679,36 @@ func c19Malformed(c *Ctx) {
 	}
 	items, bad, lenient := strictParse(mut)
 	rt := reflect.StructOf([]reflect.StructField{{Name: "F1", Type: f.T.GoType(), Tag: reflect.StructTag(mut)}})
+	// where the field sits: on the root struct, inside a nested group, or among the fields of a positional-args
+	// struct (of the parser or of a command added later) - every exported field's tag is read
+	place := []string{"root", "root", "root", "nested-group", "positional-of-parser", "positional-of-added-command", "positional-of-tagged-command"}[r.Intn(7)]
+	inner := rt
+	switch place {
+	case "nested-group":
+		rt = reflect.StructOf([]reflect.StructField{{Name: "G", Type: inner, Tag: `group:"Nested"`}})
+	case "positional-of-parser", "positional-of-added-command":
+		rt = reflect.StructOf([]reflect.StructField{{Name: "V", Type: reflect.TypeOf(false), Tag: `short:"v"`}, {Name: "Args", Type: inner, Tag: `positional-args:"yes"`}})
+	case "positional-of-tagged-command":
+		ct := reflect.StructOf([]reflect.StructField{{Name: "Args", Type: inner, Tag: `positional-args:"yes"`}})
+		rt = reflect.StructOf([]reflect.StructField{{Name: "Run", Type: ct, Tag: `command:"run"`}})
+	}
 	c.Case(func() interface{} {
-		return map[string]interface{}{"mode": "malformed", "original": tag, "mutant": mut, "op": []string{"delete", "insert", "truncate"}[op], "offset": off, "judge": bad}
+		return map[string]interface{}{"mode": "malformed", "original": tag, "mutant": mut, "op": []string{"delete", "insert", "truncate"}[op], "offset": off, "judge": bad, "field_is_in": place}
 	})
 	var p *flags.Parser
 	var perr error
 	pi := safely(func() {
-		p = flags.NewParser(reflect.New(rt).Interface(), flags.None)
+		if place == "positional-of-added-command" {
+			p = flags.NewParser(&struct{}{}, flags.None)
+			p.SubcommandsOptional = true
+			if _, aerr := p.AddCommand("run", "", "", reflect.New(rt).Interface()); aerr != nil {
+				perr = aerr
+				return
+			}
+		} else {
+			p = flags.NewParser(reflect.New(rt).Interface(), flags.None)
+			p.SubcommandsOptional = true
+		}
 		_, perr = p.ParseArgs(nil)
 	})
 	c.Count("declarations_scanned", 1)
@@ -703,7 +726,15 @@ func c19Malformed(c *Ctx) {
 			c.Violate("malformed-accepted:"+strings.ReplaceAll(bad, " ", "-"), "malformed tag (%s) `%s` was not rejected with ErrTag: %s (%v)", bad, mut, errTypeName(perr), perr)
 			return
 		}
-		c.Held("malformed/"+strings.ReplaceAll(bad, " ", "-"), fmt.Sprintf("op=%d off=%d/%d", op, off, len(tag)))
+		c.Held("malformed/"+strings.ReplaceAll(bad, " ", "-")+"/in-"+place, fmt.Sprintf("op=%d off=%d/%d", op, off, len(tag)))
+		return
+	}
+	if place != "root" {
+		if fe != nil && fe.Type == flags.ErrTag {
+			c.Violate("wellformed-mutant-rejected", "tag `%s` (field in %s) is still well-formed but was rejected: %v", mut, place, perr)
+			return
+		}
+		c.Held("mutant/still-wellformed/in-"+place, "")
 		return
 	}
 	// still well-formed: must be read faithfully, or be rejected for a documented semantic reason
